@@ -27,7 +27,7 @@ BOUND = {
     "thorough": "L(5,3) x every question position x 11 types x 22 tokens; L(5,3) x ordered trigger pairs x 3 target types x calc/no-calc x 2 trigger types",
 }
 # as-built additions to the bound (kept next to BOUND so that the evidence reports them)
-BOUND = {k: v + "; plus: " + "included sections (sections API) holding triggers / defaults, at top level and inside a group / repeat; 12 kinds of thing a trigger cell can name (visible, hidden and metadata questions, sections, several references) x 3 target types; selects with a default / trigger inside a table-list group (helper nodes get nothing); select defaults naming a choice that looks like arithmetic (65-plus); a namesake of the question in another group/repeat (before/after) with a default of the other kind, 6 token pairs; triggered calculations spelled yes/false/TRUE/true(); 4 function/reference-then-minus tokens; one name deviation: the question's name extends another node's name (<name>_count, <name>x)" for k, v in BOUND.items()}
+BOUND = {k: v + "; plus: " + "included sections (sections API) holding triggers / defaults, at top level and inside a group / repeat; 13 kinds of thing a trigger cell can name (visible, hidden and metadata questions, sections, several references) x 3 target types; selects with a default / trigger inside a table-list group (helper nodes get nothing); select defaults naming a choice that looks like arithmetic (65-plus); a namesake of the question in another group/repeat (before/after) with a default of the other kind, 6 token pairs; triggered calculations spelled yes/false/TRUE/true(); 4 function/reference-then-minus tokens; one name deviation: the question's name extends another node's name (<name>_count, <name>x)" for k, v in BOUND.items()}
 NAMES = ["a", "b", "c", "d", "e", "f"]
 TYPES = ["text", "integer", "decimal", "date", "time", "dateTime", "select_one c", "geopoint", "image", "calculate", "note"]
 # token -> classification: 's' static, 'd' dynamic, '?' ambiguous
@@ -61,7 +61,7 @@ def gen_tablelist():
                             continue
                         yield {"k": "tablelist", "pos": pos, "default": dflt, "trig": trig, "ctx": ctx, "sel": sel}
     # what the trigger cell names: whatever is accepted must yield the action (nothing is lost silently)
-    for src in ("text", "select_one c", "note", "hidden", "today", "deviceid", "calculate", "group", "repeat", "two-refs", "ref-with-text", "start-geopoint"):
+    for src in ("text", "select_one c", "note", "hidden", "today", "deviceid", "calculate", "group", "repeat", "two-refs", "ref-with-text", "start-geopoint", "last-saved"):
         for tgt in ("calculate", "text", "background-geopoint"):
             yield {"k": "trigsrc", "src": src, "tgt": tgt}
     # the sections / include API: triggers and defaults inside an included section, at top level and inside a group / repeat
@@ -220,6 +220,9 @@ def check_trigsrc(case):
     elif src == "ref-with-text":
         rows += [{"type": "text", "name": "a", "label": "A"}]
         trig = "x ${a}"
+    elif src == "last-saved":
+        rows += [{"type": "text", "name": "a", "label": "A"}]
+        trig = "${last-saved#a}"
     elif src == "calculate":
         rows += [{"type": "calculate", "name": "a", "calculation": "1"}]
     elif src in ("hidden", "today", "deviceid", "start-geopoint"):
